@@ -129,61 +129,123 @@ package core
 //@         && resp.Frags[keyslot(resp.Keys[p])][kcnt(resp.Keys, p, keyslot(resp.Keys[p]))] == resp.Keys[p])
 //@     decreases n - i
 
+//@ define pairkey(buf, p) = str(bulk_data(buf.buf, args_end(buf.buf, 2 * p, old(buf.r))))
+//@ define pairval(buf, p) = str(bulk_data(buf.buf, args_end(buf.buf, 2 * p + 1, old(buf.r))))
+
 //@ func CRespCodec.Frag2
-//@   props C08 C12
+//@   props C06 C08 C12
 //@   flags allocbound
 //@   modifies buf.r, resp.Frags2, resp.Keys, capmem(resp.Keys)
-//@   requires c != nil && resp != nil && buf != nil && codec.bwf(buf) && n >= 0
+//@   requires c != nil && resp != nil && buf != nil && codec.bwf(buf) && n >= 0 && len(resp.Keys) == 0
 //@   ensures[wf] codec.bwf(buf) && buf.buf == old(buf.buf) && buf.r >= old(buf.r)
 //@   ensures[args] (result == nil && n % 2 == 0) ==> args_ok(buf.buf, n, old(buf.r)) && buf.r == args_end(buf.buf, n, old(buf.r))
 //@   ensures[taxonomy] (result != nil && result != codec.ErrInvalidResp) ==> (result == codec.EmptyLine || result == codec.ShortLine || result == codec.ErrLFNotFound)
 //@   ensures[groups] forall s int32 :: has(resp.Frags2, s) ==> len(resp.Frags2[s]) >= 1
+//@   ensures[keys@C06] (result == nil && n % 2 == 0) ==> len(resp.Keys) == n / 2 && (forall p int :: (0 <= p && p < n / 2) ==> resp.Keys[p] == pairkey(buf, p))
+//@   ensures[partition.dom@C06] (result == nil && n % 2 == 0) ==> (forall s int32 :: has(resp.Frags2, s) <==> kcnt(resp.Keys, n / 2, s) > 0)
+//@   ensures[partition.len@C06] (result == nil && n % 2 == 0) ==> (forall s int32 :: has(resp.Frags2, s) ==> len(resp.Frags2[s]) == kcnt(resp.Keys, n / 2, s))
+//@   ensures[partition.rank@C06] (result == nil && n % 2 == 0) ==> (forall p int :: (0 <= p && p < n / 2) ==>
+//@       (resp.Frags2[keyslot(resp.Keys[p])][kcnt(resp.Keys, p, keyslot(resp.Keys[p]))][0] == resp.Keys[p]
+//@        && resp.Frags2[keyslot(resp.Keys[p])][kcnt(resp.Keys, p, keyslot(resp.Keys[p]))][1] == pairval(buf, p)))
 //@   loop 0
 //@     modifies buf.r, resp.Keys, capmem(resp.Keys), mapof(resp.Frags2)
-//@     invariant forall s int32 :: has(resp.Frags2, s) ==> len(resp.Frags2[s]) >= 1 && newinloop(resp.Frags2[s])
+//@     invariant forall s int32 :: has(resp.Frags2, s) ==> len(resp.Frags2[s]) >= 1 && newinloop(resp.Frags2[s]) && allocated(resp.Frags2[s].base)
 //@     invariant sameback(resp.Keys)
 //@     invariant 0 <= i && i % 2 == 0 && (n % 2 == 0 ==> i <= n) && argsinv(buf, n, i) && resp.Frags2 != nil && fresh(resp.Frags2)
 //@     invariant args_snoc(buf.buf, i + 1, old(buf.r))
+//@     invariant forall s int32, t int32 :: (has(resp.Frags2, s) && has(resp.Frags2, t) && s != t) ==> resp.Frags2[s].base != resp.Frags2[t].base
+//@     invariant len(resp.Keys) == i / 2
+//@     invariant forall p int :: (0 <= p && p < i / 2) ==> resp.Keys[p] == pairkey(buf, p)
+//@     invariant forall s int32 :: kcnt_unfold(resp.Keys, i / 2, s) && (has(resp.Frags2, s) <==> kcnt(resp.Keys, i / 2, s) > 0)
+//@     invariant forall s int32 :: has(resp.Frags2, s) ==> len(resp.Frags2[s]) == kcnt(resp.Keys, i / 2, s)
+//@     invariant forall p int :: (0 <= p && p < i / 2) ==> (kcnt_unfold(resp.Keys, p, keyslot(resp.Keys[p])) && kcnt_unfold(resp.Keys, p + 1, keyslot(resp.Keys[p])) && kcnt_mono(resp.Keys, p + 1, i / 2, keyslot(resp.Keys[p]))
+//@         && resp.Frags2[keyslot(resp.Keys[p])][kcnt(resp.Keys, p, keyslot(resp.Keys[p]))][0] == resp.Keys[p]
+//@         && resp.Frags2[keyslot(resp.Keys[p])][kcnt(resp.Keys, p, keyslot(resp.Keys[p]))][1] == pairval(buf, p))
 //@     decreases n - i
+
+// Encoders (C06): each per-slot group becomes one fragment whose request bytes are the canonical RESP encoding
+// of the command name followed by exactly the keys of the group, in group order.
+//@ define bytes_of(b, s) = holds(b, s)
+//@ define mgetreq(keys, j) = s_cat("*", s_cat(itoa(len(keys) + 1), s_cat("\r\n$4\r\nmget\r\n", kenc(keys, j))))
 
 //@ func CRespCodec.MGet
 //@   props C06 C12
 //@   modifies mapof(resp.Body), fragId
 //@   requires resp != nil && resp.Body != nil
 //@   requires forall s int32 :: has(resp.Frags, s) ==> len(resp.Frags[s]) >= 1
+//@   ensures[frags@C06] forall s int32 :: has(resp.Frags, s) ==> (has(resp.Body, s) && resp.Body[s] != nil && resp.Body[s].Peer == resp && resp.Body[s].Key == resp.Frags[s][0])
+//@   ensures[encoding@C06] forall s int32 :: has(resp.Frags, s) ==> bytes_of(resp.Body[s].Req, mgetreq(resp.Frags[s], len(resp.Frags[s])))
+//@   assert at call append#1 :: bytes_of(frag.Req, "*")
+//@   assert at call append#2 :: bytes_of(frag.Req, s_cat("*", itoa(len(keys) + 1)))
+//@   assert at call append#4 :: bytes_of(frag.Req, s_cat(mgetreq(keys, rangeindex), "$"))
+//@   assert at call append#5 :: bytes_of(frag.Req, s_cat(mgetreq(keys, rangeindex), s_cat("$", itoa(len(k)))))
+//@   assert at call append#6 :: bytes_of(frag.Req, s_cat(mgetreq(keys, rangeindex), s_cat("$", s_cat(itoa(len(k)), "\r\n"))))
+//@   assert at call append#7 :: bytes_of(frag.Req, s_cat(mgetreq(keys, rangeindex), s_cat("$", s_cat(itoa(len(k)), s_cat("\r\n", k)))))
 //@   loop 0
 //@     modifies mapof(resp.Body), fragId
-//@     invariant true
+//@     invariant resp != nil && resp.Body != nil
+//@     invariant forall s int32 :: visited(s) ==> (has(resp.Body, s) && resp.Body[s] != nil && newinloop(resp.Body[s]) && allocated(resp.Body[s]) && allocated(resp.Body[s].Req.base) && resp.Body[s].Peer == resp && resp.Body[s].Key == resp.Frags[s][0])
+//@     invariant forall s int32 :: visited(s) ==> bytes_of(resp.Body[s].Req, mgetreq(resp.Frags[s], len(resp.Frags[s])))
 //@   loop 1
 //@     modifies frag.Req, capmem(frag.Req)
 //@     invariant 0 <= rangeindex + 1 && rangeindex + 1 <= len(keys) && frag != nil && sameback(frag.Req)
+//@     invariant kenc_unfold(keys, rangeindex + 1) && kenc_unfold(keys, rangeindex + 2) && bytes_of(frag.Req, mgetreq(keys, rangeindex + 1))
+
+//@ define delreq(keys, j) = s_cat("*", s_cat(itoa(len(keys) + 1), s_cat("\r\n$3\r\ndel\r\n", kenc(keys, j))))
 
 //@ func CRespCodec.Del
 //@   props C06 C12
 //@   modifies mapof(resp.Body), fragId
 //@   requires resp != nil && resp.Body != nil
 //@   requires forall s int32 :: has(resp.Frags, s) ==> len(resp.Frags[s]) >= 1
+//@   ensures[frags@C06] forall s int32 :: has(resp.Frags, s) ==> (has(resp.Body, s) && resp.Body[s] != nil && resp.Body[s].Peer == resp && resp.Body[s].Key == resp.Frags[s][0])
+//@   ensures[encoding@C06] forall s int32 :: has(resp.Frags, s) ==> bytes_of(resp.Body[s].Req, delreq(resp.Frags[s], len(resp.Frags[s])))
+//@   assert at call append#1 :: bytes_of(frag.Req, "*")
+//@   assert at call append#2 :: bytes_of(frag.Req, s_cat("*", itoa(len(keys) + 1)))
+//@   assert at call append#4 :: bytes_of(frag.Req, s_cat(delreq(keys, rangeindex), "$"))
+//@   assert at call append#5 :: bytes_of(frag.Req, s_cat(delreq(keys, rangeindex), s_cat("$", itoa(len(k)))))
+//@   assert at call append#6 :: bytes_of(frag.Req, s_cat(delreq(keys, rangeindex), s_cat("$", s_cat(itoa(len(k)), "\r\n"))))
+//@   assert at call append#7 :: bytes_of(frag.Req, s_cat(delreq(keys, rangeindex), s_cat("$", s_cat(itoa(len(k)), s_cat("\r\n", k)))))
 //@   loop 0
 //@     modifies mapof(resp.Body), fragId
-//@     invariant true
+//@     invariant resp != nil && resp.Body != nil
+//@     invariant forall s int32 :: visited(s) ==> (has(resp.Body, s) && resp.Body[s] != nil && newinloop(resp.Body[s]) && allocated(resp.Body[s]) && allocated(resp.Body[s].Req.base) && resp.Body[s].Peer == resp && resp.Body[s].Key == resp.Frags[s][0])
+//@     invariant forall s int32 :: visited(s) ==> bytes_of(resp.Body[s].Req, delreq(resp.Frags[s], len(resp.Frags[s])))
 //@   loop 1
 //@     modifies frag.Req, capmem(frag.Req)
 //@     invariant 0 <= rangeindex + 1 && rangeindex + 1 <= len(keys) && frag != nil && sameback(frag.Req)
+//@     invariant kenc_unfold(keys, rangeindex + 1) && kenc_unfold(keys, rangeindex + 2) && bytes_of(frag.Req, delreq(keys, rangeindex + 1))
+
+//@ define msetreq(keys, j) = s_cat("*", s_cat(itoa(len(keys) * 2 + 1), s_cat("\r\n$4\r\nmset\r\n", penc(keys, j))))
+//@ define pairpre(ks, t) = ite(t <= 0, "", ite(t == 1, bulkstr(ks[0]), s_cat(bulkstr(ks[0]), bulkstr(ks[1]))))
 
 //@ func CRespCodec.MSet
 //@   props C06 C12
 //@   modifies mapof(resp.Body), fragId
 //@   requires resp != nil && resp.Body != nil
 //@   requires forall s int32 :: has(resp.Frags2, s) ==> len(resp.Frags2[s]) >= 1
+//@   ensures[frags@C06] forall s int32 :: has(resp.Frags2, s) ==> (has(resp.Body, s) && resp.Body[s] != nil && resp.Body[s].Peer == resp && resp.Body[s].Key == resp.Frags2[s][0][0])
+//@   ensures[encoding@C06] forall s int32 :: has(resp.Frags2, s) ==> bytes_of(resp.Body[s].Req, msetreq(resp.Frags2[s], len(resp.Frags2[s])))
+//@   assert at call append#1 :: bytes_of(frag.Req, "*")
+//@   assert at call append#2 :: bytes_of(frag.Req, s_cat("*", itoa(len(keys) * 2 + 1)))
+//@   assert at call append#4 :: bytes_of(frag.Req, s_cat(msetreq(keys, rangeindex#0), s_cat(pairpre(ks, rangeindex#1), "$")))
+//@   assert at call append#5 :: bytes_of(frag.Req, s_cat(msetreq(keys, rangeindex#0), s_cat(pairpre(ks, rangeindex#1), s_cat("$", itoa(len(k))))))
+//@   assert at call append#6 :: bytes_of(frag.Req, s_cat(msetreq(keys, rangeindex#0), s_cat(pairpre(ks, rangeindex#1), s_cat("$", s_cat(itoa(len(k)), "\r\n")))))
+//@   assert at call append#7 :: bytes_of(frag.Req, s_cat(msetreq(keys, rangeindex#0), s_cat(pairpre(ks, rangeindex#1), s_cat("$", s_cat(itoa(len(k)), s_cat("\r\n", k))))))
 //@   loop 0
 //@     modifies mapof(resp.Body), fragId
-//@     invariant true
+//@     invariant resp != nil && resp.Body != nil
+//@     invariant forall s int32 :: visited(s) ==> (has(resp.Body, s) && resp.Body[s] != nil && newinloop(resp.Body[s]) && allocated(resp.Body[s]) && allocated(resp.Body[s].Req.base) && resp.Body[s].Peer == resp && resp.Body[s].Key == resp.Frags2[s][0][0])
+//@     invariant forall s int32 :: visited(s) ==> bytes_of(resp.Body[s].Req, msetreq(resp.Frags2[s], len(resp.Frags2[s])))
 //@   loop 1
 //@     modifies frag.Req, capmem(frag.Req)
 //@     invariant 0 <= rangeindex + 1 && rangeindex + 1 <= len(keys) && frag != nil && sameback(frag.Req)
+//@     invariant penc_unfold(keys, rangeindex + 1) && penc_unfold(keys, rangeindex + 2) && bytes_of(frag.Req, msetreq(keys, rangeindex + 1))
 //@   loop 2
 //@     modifies frag.Req, capmem(frag.Req)
 //@     invariant 0 <= rangeindex#1 + 1 && rangeindex#1 + 1 <= 2 && frag != nil && sameback(frag.Req)
+//@     invariant 0 <= rangeindex#0 && rangeindex#0 < len(keys) && ks == keys[rangeindex#0] && penc_unfold(keys, rangeindex#0 + 1)
+//@     invariant bytes_of(frag.Req, s_cat(msetreq(keys, rangeindex#0), pairpre(ks, rangeindex#1 + 1)))
 
 //@ define sameback(x) = (x.base == pre(x.base) && x.off == pre(x.off) && cap(x) == pre(cap(x))) || newinloop(x)
 
